@@ -45,7 +45,7 @@ DisjointUnion(G, H) == [n |-> G.n + H.n, E |-> G.E \cup { { x + G.n : x \in e } 
 
 IsInjectiveSeq(V) == \A a, b \in 1..Len(V) : a # b => V[a] # V[b]
 IsPermSeq(p, n)   == Len(p) = n /\ { p[i] : i \in 1..n } = Verts(n)
-PermSeqs(n)       == { p \in [1..n -> Verts(n)] : { p[i] : i \in 1..n } = Verts(n) }
+PermSeqs(n)       == { [i \in 1..n |-> f[i - 1]] : f \in Permutations(Verts(n)) }     \* TLC enumerates the n! bijections directly
 
 (* ---- isomorphism, automorphisms, brute-force canonical code ---- *)
 IsAutSeq(G, p)    == IsPermSeq(p, G.n) /\ Relabel(G, p) = G
@@ -58,6 +58,11 @@ CodeOf(G)         == { EdgeRank(e) : e \in G.E }
    symmetric difference lies in B *)
 CodeLess(A, B)    == A # B /\ Max((A \ B) \cup (B \ A)) \in B
 BFCanonCode(G)    == LET codes == { CodeOf(Relabel(G, p)) : p \in PermSeqs(G.n) }
+                     IN CHOOSE c \in codes : \A d \in codes : d = c \/ CodeLess(d, c)
+(* a cheaper complete invariant: the largest code over the relabellings that list the vertices by ascending degree
+   (isomorphic graphs have the same set of such relabelled graphs; the code determines the graph) *)
+DegMonotone(G, p) == \A i \in 1..(G.n - 1) : Deg(G, p[i]) <= Deg(G, p[i + 1])
+CanonCode(G)      == LET codes == { CodeOf(Relabel(G, p)) : p \in { q \in PermSeqs(G.n) : DegMonotone(G, q) } }
                      IN CHOOSE c \in codes : \A d \in codes : d = c \/ CodeLess(d, c)
 (* orbit partition of a set of permutations (as sequences) acting on 0..n-1 *)
 RECURSIVE ReachSet(_, _)
